@@ -132,6 +132,9 @@ pub struct Pipe {
     pub data_reads: u64,
     /// (address one past the end of the slice handed to `read`, its length) for the last read.
     pub last_read_buf_end: usize,
+    /// Incremented whenever a read observes a different buffer end address than the previous
+    /// read, or fills its window completely (the caller will have to grow its buffer).
+    pub realloc_gen: u64,
     pub max_read_window: usize,
     pub chunk_override: Option<Chunk>,
 }
@@ -620,7 +623,11 @@ impl Future for ReadFut<'_> {
         let window = this.buf.len();
         {
             let pipe = &mut w.pipes[p];
-            pipe.last_read_buf_end = this.buf.as_ptr() as usize + window;
+            let end = this.buf.as_ptr() as usize + window;
+            if pipe.last_read_buf_end != end {
+                pipe.realloc_gen += 1;
+            }
+            pipe.last_read_buf_end = end;
             if window > pipe.max_read_window {
                 pipe.max_read_window = window;
             }
@@ -649,6 +656,9 @@ impl Future for ReadFut<'_> {
             pipe.total_read += n;
             pipe.last_read_byte = this.buf[n - 1];
             pipe.data_reads += 1;
+            if n == window {
+                pipe.realloc_gen += 1;
+            }
             w.ev("read", p as u64, n as u64);
             this.done = true;
             return Poll::Ready(Ok(n));
